@@ -286,6 +286,32 @@ def family_usages():
     for hid in ("H1", "H2", "H3"):
         for ls in ([('seq', [a, opt(x)])],), ([('seq', [a, opt(x)])], [('seq', [b, opt(y)])]), ([('seq', [a])], [('seq', [b])], [('seq', [x, y])]):
             out.append(([l[0] for l in ls], hid, av8))
+    # F11: valued options with an EMPTY inline value, long and short form
+    t11 = ['--out=', '--out=w', '--out', '-o=', '-o', 'v', 'w', '--level=', '-q']
+    av11 = [list(t) for n in range(0, 4) for t in itertools.product(t11, repeat=n) if len(set(t)) == len(t)]
+    oo, lv2 = o('out', '--out=FILE'), o('level', '--level=LEVEL')
+    for l in ([('seq', [opt(oo), opt(x)])], [('seq', [opt(oo), opt(qf), x])], [('seq', [('anyopts',), opt(x)])], [('seq', [opt(lv2), opt(oo), ('rep', x)])]):
+        out.append((l, True, av11))
+    # F12: a repeated positional beside two or more separately written optional option groups, most of them unused
+    t12 = ['v', 'w', '-f', '-q', '--level=w', 'a']
+    av12 = [list(t) for n in range(0, 5) for t in itertools.product(t12, repeat=n) if sum(1 for w in t if w.startswith('-')) <= 2 and len(set(w for w in t if w.startswith('-'))) == sum(1 for w in t if w.startswith('-'))]
+    for l in ([('seq', [opt(f), opt(('rep', x)), opt(lv2)])], [('seq', [opt(f), ('rep', x), opt(qf)])], [('seq', [('rep', x), ('group', ('alt', [opt(qf), a, opt(f)]))])],
+              [('seq', [('group', ('alt', [opt(f), opt(qf)])), ('rep', x)])], [('seq', [opt(f), opt(qf), opt(lv2), ('rep', x)])]):
+        out.append((l, True, av12))
+    # F13: a REQUIRED (unbracketed) option inside or beside an alternation of commands, arguments that omit it
+    t13 = ['a', 'b', '-f', '--force', 'v', '-q']
+    av13 = [list(t) for n in range(0, 4) for t in itertools.product(t13, repeat=n)]
+    for ls in ([[('seq', [('group', ('alt', [('seq', [a, f]), b]))])]], [[('seq', [f, ('group', ('alt', [a, b]))])]], [[('seq', [('cmd', 'c')])], [('seq', [('group', ('alt', [('seq', [a, f]), b]))])]],
+               [[('seq', [('group', ('alt', [a, ('seq', [b, qf])])), opt(x)])]]):
+        out.append(([l[0] for l in ls], True, av13))
+    # F14: several usage lines; one with option groups separated by plain words, another with adjacent option groups;
+    # the adjacent ones given in another order than written (state carried from line to line in hash order)
+    xx = o('extra', '-x')
+    t14 = ['a', 'b', 'v', '-v', '-q', '-d', '-x']
+    av14 = [list(t) for n in range(0, 5) for t in itertools.product(t14, repeat=n) if len(set(t)) == len(t) and sum(1 for w in t if not w.startswith('-')) <= 2]
+    for ls in ([[('seq', [a, opt(vv), x, opt(qv)])], [('seq', [b, opt(dv), opt(xx)])]], [[('seq', [a, opt(vv), x, opt(qv)])], [('seq', [b, ('anyopts',)])]],
+               [[('seq', [b, opt(dv), opt(xx)])], [('seq', [a, opt(vv), x, opt(qv)])], [('seq', [('cmd', 'c'), opt(qv), opt(vv), opt(y)])]]):
+        out.append(([l[0] for l in ls], "T6", av14))
     # F5: upper-case positionals, `<x> ...` with a blank before the dots
     F, G = ('pos', 'FILE'), ('pos', 'MY-ARG')
     av5 = [list(t) for n in range(0, 5) for t in itertools.product(['a', 'v', 'w'], repeat=n)]
